@@ -171,6 +171,12 @@ func (dw *DiskWriter) HandleChange(kind ChangeKind, p string, fi os.FileInfo, er
 			return errors.Wrapf(err, "failed to create dir %s", newPath)
 		}
 		dw.dirModTimes[destPath] = statCopy.ModTime
+	case fi.Mode()&os.ModeSymlink == 0 && statCopy.Linkname != "":
+		// hard link: also for devices and fifos, which the walk announces as
+		// links to the first member of their inode group
+		if err := os.Link(filepath.Join(dw.dest, statCopy.Linkname), newPath); err != nil {
+			return errors.Wrapf(err, "failed to link %s to %s", newPath, statCopy.Linkname)
+		}
 	case fi.Mode()&os.ModeDevice != 0 || fi.Mode()&os.ModeNamedPipe != 0:
 		if err := handleTarTypeBlockCharFifo(newPath, statCopy); err != nil {
 			return errors.Wrapf(err, "failed to create device %s", newPath)
@@ -178,10 +184,6 @@ func (dw *DiskWriter) HandleChange(kind ChangeKind, p string, fi os.FileInfo, er
 	case fi.Mode()&os.ModeSymlink != 0:
 		if err := os.Symlink(statCopy.Linkname, newPath); err != nil {
 			return errors.Wrapf(err, "failed to symlink %s", newPath)
-		}
-	case statCopy.Linkname != "":
-		if err := os.Link(filepath.Join(dw.dest, statCopy.Linkname), newPath); err != nil {
-			return errors.Wrapf(err, "failed to link %s to %s", newPath, statCopy.Linkname)
 		}
 	default:
 		isRegularFile = true
